@@ -171,7 +171,64 @@ func main() {
 	hx.Parallel(len(cases), func(i int) {
 		runCase(w, kssKeys, cases[i], mrand.New(mrand.NewSource(seeds[i])), res)
 	})
+	legacy(w, rng, res)
 	res.Write(a.Out)
+}
+
+// legacy: the first generation of the protocol (KeyshareResponseLegacy, ProofP carrying P, MergeProofP adding responses):
+// only its completeness is stated by the property. The user computes the challenge alone and the server answers it.
+func legacy(w *world, rng *mrand.Rand, res *hx.Result) {
+	for trial := 0; trial < 24; trial++ {
+		key := []string{"k1", "k2"}[trial%2]
+		kp := w.keys[key]
+		kinds := []string{"D", "Dnonrev", "Drange"}
+		b := aBuilder{Kind: kinds[trial%3], Key: key}
+		ctx, nonce, sig := w.ctx[1+trial%2], randBits(rng, 128), trial%4 >= 2
+		var ok bool
+		var list gabi.ProofList
+		var relation bool
+		panicked, msg := hx.Try(func() {
+			builder := w.builder(b, ctx, rng)
+			kssRand, kssComm, err := gabi.NewKeyshareCommitments(w.kssSecret, []*gabikeys.PublicKey{kp.PK})
+			if err != nil {
+				hx.Fatal("NewKeyshareCommitments: %v", err)
+			}
+			builder.SetProofPCommitment(kssComm[0])
+			builders := gabi.ProofBuilderList{builder}
+			challenge, err := builders.Challenge(ctx, nonce, sig)
+			if err != nil {
+				hx.Fatal("Challenge: %v", err)
+			}
+			proofP := gabi.KeyshareResponseLegacy(w.kssSecret, kssRand, challenge, kp.PK)
+			// the server's response is a Schnorr response for P = R_0^secret: R_0^s = W * P^c
+			n := kp.PK.N.Go()
+			lhs := new(gobig.Int).Exp(kp.PK.R[0].Go(), proofP.SResponse.Go(), n)
+			rhs := new(gobig.Int).Exp(kssComm[0].P.Go(), challenge.Go(), n)
+			rhs.Mul(rhs, kssComm[0].Pcommit.Go()).Mod(rhs, n)
+			relation = lhs.Cmp(rhs) == 0 && proofP.P.Cmp(kssComm[0].P) == 0
+			list, err = builders.BuildDistributedProofList(challenge, []*gabi.ProofP{proofP})
+			if err != nil {
+				hx.Fatal("BuildDistributedProofList: %v", err)
+			}
+			ok = list.Verify([]*gabikeys.PublicKey{kp.PK}, ctx, nonce, sig, []string{"kss"})
+		})
+		res.Eval(fmt.Sprintf("legacy/%d", trial))
+		det := hx.M{"legacy": true, "builder": b, "sig": sig}
+		switch {
+		case panicked:
+			res.Violation("keyshare-panic", "legacy keyshare flow panicked: "+msg, det)
+		case !relation:
+			res.Violation("legacy-response-wrong", "KeyshareResponseLegacy does not satisfy R_0^s = W * P^c", det)
+		case !ok:
+			for _, p := range list {
+				if pd, isD := p.(*gabi.ProofD); isD && hx.D10Ambiguous(pd, 4) {
+					res.Count("discarded-known-finding-D10")
+					return
+				}
+			}
+			res.Violation("joint-proof-list-rejected", "the proof list of an honest legacy keyshare run does not verify", det)
+		}
+	}
 }
 
 func runCase(w *world, kssKeys map[string]*gabikeys.PublicKey, c aCase, rng *mrand.Rand, res *hx.Result) {
